@@ -2,10 +2,10 @@ import sys
 sys.path.insert(0, '/verif')
 from rv import common
 from rv.e2 import explore
-from rv.props import c09
+import importlib
 if __name__ == "__main__":
     bindir = common.build_subject()
-    scn = {s["name"]: s for s, _ in c09.scenarios("thorough")}[sys.argv[1]]
+    scn = {s["name"]: s for s, _ in importlib.import_module("rv.props." + sys.argv[2].lower()).scenarios("thorough")}[sys.argv[1]]
     ex = explore.E2Explorer(bindir, workers=1)
     _, r = explore._run(scn, (), ex.bindir, ex.scratch)
     ex.close(); common.cleanup_scratch()
